@@ -21,8 +21,7 @@ LEVEL_TEXT = ("Machine-checked refinement theorem: for every history of construc
               "each export equals a stateless specification that, for a timeline not given a scale by the caller, mentions only "
               "its own data and options; exports do not change state; the caller's data dicts are modelled as shared cells too "
               "and sharing them is harmless because the write-back of parse_items is idempotent (C10_isolation_shared_data). Which objects a timeline "
-              "points to follows from the option-dictionary model of Timeline.__init__ (C10_options_own_scale: a scale of its own exactly "
-              "when the caller passed none; C10_options_only_own_inputs: the merged options hold the caller's values, the module defaults, "
+              "points to follows from the option-dictionary model of Timeline.__init__ (C10_options_scale_identity / C10_options_scale_not_default: scale objects carry an identity in the model; a timeline points to the caller's object or to the TimeScale its own constructor call created, never to the module-level default object; C10_options_only_own_inputs: the merged options hold the caller's values, the module defaults, "
               "that scale and a copy of the caller's engine options, nothing else; that model is tied by the C11 check). The model of the object plumbing is tied to "
               "labella/timeline.py by running random histories in one process against fresh-process references.")
 LEVEL_NOTE = ("Trusted: Coq kernel; extraction; the harness. The model is generic in data/options/scale state/document and fixes "
